@@ -34,6 +34,8 @@ import (
 	"encoding/binary"
 	"encoding/hex"
 	"encoding/json"
+	"encoding/pem"
+	"errors"
 	"fmt"
 	"io"
 	"log"
@@ -46,20 +48,25 @@ import (
 	"strings"
 	"sync/atomic"
 	"testing"
+	"testing/synctest"
 	"time"
 
 	conformancev1 "connectrpc.com/conformance/internal/gen/proto/go/connectrpc/conformance/v1"
+	"connectrpc.com/conformance/internal/gen/proto/go/connectrpc/conformance/v1/conformancev1connect"
 	"connectrpc.com/conformance/internal/verif/c17lib"
 	"connectrpc.com/conformance/internal/verif/rep"
 	"golang.org/x/net/http2"
 	"golang.org/x/net/http2/h2c"
 	"google.golang.org/protobuf/proto"
+	"google.golang.org/protobuf/types/known/anypb"
+	"google.golang.org/protobuf/types/known/emptypb"
 )
 
 type c17qCase struct {
 	Proto string          `json:"proto"`
 	Early bool            `json:"server_answers_early,omitempty"` // the server flushes its response headers, waits until RoundTrip has returned, then reads the body
 	Big   *c17qBig        `json:"big_body,omitempty"`             // the body is generated (c17qBigBody) instead of being spelled out in Raw
+	Ext   *c17qExt        `json:"original_request,omitempty"`     // what becomes of the request the client builds itself (grids O and I)
 	Raw   json.RawMessage `json:"raw"`                            // protojson RawHTTPRequest (without body when Big is set)
 }
 
@@ -162,6 +169,13 @@ type c17qServer struct {
 	seen      chan c17qSeen
 	stop      func()
 	gate      atomic.Pointer[chan struct{}] // non-nil: EARLY mode - answer first, read the body when this channel is closed
+	reply     atomic.Pointer[c17qReply]     // non-nil: what the server answers (grid I: something the RPC client can end on)
+	pem       []byte                        // h2tls: the server's certificate
+}
+
+type c17qReply struct {
+	contentType string
+	body        []byte
 }
 
 const (
@@ -176,7 +190,11 @@ func c17qStart() map[string]*c17qServer {
 		s := &c17qServer{name: name, seen: make(chan c17qSeen, 64)}
 		return s, http.HandlerFunc(func(w http.ResponseWriter, r *http.Request) {
 			rec := c17qSeen{Method: r.Method, RequestURI: r.RequestURI, Path: r.URL.Path, Escaped: r.URL.EscapedPath(), RawQuery: r.URL.RawQuery, Header: r.Header.Clone(), Proto: r.Proto}
-			w.Header().Set("Content-Type", "text/plain")
+			reply := &c17qReply{"text/plain", []byte("ok")}
+			if rp := s.reply.Load(); rp != nil {
+				reply = rp
+			}
+			w.Header().Set("Content-Type", reply.contentType)
 			if gate := s.gate.Load(); gate != nil {
 				// EARLY: the response headers leave before a single body byte was read
 				rec.Early = true
@@ -200,7 +218,7 @@ func c17qStart() map[string]*c17qServer {
 			case s.seen <- rec:
 			default:
 			}
-			_, _ = w.Write([]byte("ok"))
+			_, _ = w.Write(reply.body)
 		})
 	}
 
@@ -217,6 +235,9 @@ func c17qStart() map[string]*c17qServer {
 	ts2.EnableHTTP2 = true
 	ts2.StartTLS()
 	s2.url, s2.stop, s2.transport = ts2.URL, ts2.Close, ts2.Client().Transport
+	if cert := ts2.Certificate(); cert != nil {
+		s2.pem = pem.EncodeToMemory(&pem.Block{Type: "CERTIFICATE", Bytes: cert.Raw})
+	}
 	if tr, ok := s2.transport.(*http.Transport); ok {
 		tr.DisableCompression = true
 	}
@@ -518,6 +539,374 @@ func c17qJudge(raw *conformancev1.RawHTTPRequest, early bool, big *c17qBig, obs 
 }
 
 // ---------------------------------------------------------------------------
+// The request the client would have built: how long does it stay unfinished?
+//
+// The property says the raw request is sent INSTEAD of that request; it does not
+// say "after it".  For a unary RPC the original body is finished when RoundTrip
+// is called; for a client / bidi stream it is connect-go's request pipe, open
+// until the application half-closes.  Two grids make that an axis:
+//
+// grid O - rawRequestSender.RoundTrip itself, with an in-memory recording
+// transport, inside a testing/synctest bubble: the original body is a finished
+// buffer, a pipe that ends when drained, a pipe closed / failed beforehand
+// (controls), or a pipe that stays OPEN - with one message waiting to be
+// drained, with three, with none - and is closed (or fails) only after the
+// transport has been handed the raw request, or only after the response has
+// been read.  synctest.Wait() returns when every goroutine of the bubble has
+// finished or waits for something only the harness can do: at that moment the
+// raw request must have reached the transport.  No clock.
+//
+// grid I - invoke(...) in reference mode (the real connect-go client, the wire
+// capture transport, rawRequestSender) against the recording servers, for every
+// stream type, 1 and 3 request messages, request_delay_ms, and cancellation
+// before close-send.  A full-duplex bidi client waits for a response after each
+// Send: if the raw request is held back until the original request ends, nothing
+// ever arrives.  The only use of the clock is the hang detector (c17qHangBound);
+// the same set-up with a request side that is finished at once (unary, server
+// stream) is the control.
+
+type c17qExt struct {
+	Orig   string      `json:"original_body,omitempty"` // grid O: c17qOrigModes
+	Invoke *c17qInvoke `json:"invoke,omitempty"`        // grid I
+}
+
+type c17qInvoke struct {
+	StreamType string `json:"stream_type"` // unary | server | client | half-bidi | full-bidi
+	Messages   int    `json:"request_messages"`
+	DelayMs    uint32 `json:"request_delay_ms,omitempty"`
+	Cancel     string `json:"cancel,omitempty"` // "before_close_send"
+}
+
+// c17qHangBound: how long the harness waits for a raw request that nothing but
+// the unfinished original request can be holding back (liveness guard; the
+// control cases of the same grid pass through the same code in milliseconds).
+const c17qHangBound = 10 * time.Second
+
+const c17qHeldKey = "raw-request:held-back-until-original-request-ends"
+
+var c17qOrigModes = []string{
+	"buffer", "pipe-ends-when-drained", "pipe-closed-before", "pipe-failed-before", // the original body is finished (or ends by itself)
+	"open-until-seen", "open-3-messages-until-seen", "open-silent-until-seen", "fails-after-seen", "open-until-response-read",
+}
+
+func c17qOrigOpen(mode string) bool {
+	return strings.HasPrefix(mode, "open") || mode == "fails-after-seen"
+}
+
+// c17qMem: an in-memory http.RoundTripper that records the request it is handed
+// (reading its body to the end) and answers 200.
+type c17qMem struct{ seen chan c17qSeen }
+
+func (m *c17qMem) RoundTrip(req *http.Request) (*http.Response, error) {
+	rec := c17qSeen{Method: req.Method, RequestURI: req.URL.RequestURI(), Path: req.URL.Path, Escaped: req.URL.EscapedPath(), RawQuery: req.URL.RawQuery, Header: req.Header.Clone(), Proto: "in-memory"}
+	if req.Body != nil {
+		keep, hash := &c17qKeeper{}, sha256.New()
+		n, err := io.Copy(io.MultiWriter(keep, hash), req.Body)
+		_ = req.Body.Close()
+		rec.Body, rec.BodyLen, rec.BodySHA = keep.buf, n, hex.EncodeToString(hash.Sum(nil))
+		if err != nil {
+			rec.BodyErr = err.Error()
+		}
+	}
+	select {
+	case m.seen <- rec:
+	default:
+	}
+	return &http.Response{
+		Status: "200 OK", StatusCode: http.StatusOK, Proto: "HTTP/1.1", ProtoMajor: 1, ProtoMinor: 1,
+		Header: http.Header{"Content-Type": {"text/plain"}}, Body: io.NopCloser(strings.NewReader("ok")), Request: req,
+	}, nil
+}
+
+// c17qRunOrig: one grid-O case.  held != "" = the raw request had not been handed
+// to the transport (or RoundTrip had not returned, mode open-until-response-read)
+// when every goroutine had come to rest with the original body still open.
+func c17qRunOrig(t *testing.T, raw *conformancev1.RawHTTPRequest, mode string) (obs c17qObs, held string) {
+	defer func() {
+		if p := recover(); p != nil { // synctest: goroutines left blocked for ever when the case was over
+			obs.Panic = fmt.Sprint(p)
+		}
+	}()
+	synctest.Test(t, func(*testing.T) {
+		mem := &c17qMem{seen: make(chan c17qSeen, 4)}
+		var body io.ReadCloser = io.NopCloser(strings.NewReader(c17qOrigBody))
+		var pw *io.PipeWriter
+		if mode != "buffer" {
+			var pr *io.PipeReader
+			pr, pw = io.Pipe()
+			body = pr
+			switch mode {
+			case "pipe-ends-when-drained": // what connect-go does for a unary RPC
+				go func() { _, _ = pw.Write([]byte(c17qOrigBody)); _ = pw.Close() }()
+			case "pipe-closed-before":
+				_ = pw.Close()
+			case "pipe-failed-before":
+				_ = pw.CloseWithError(errors.New("c17: the original request was given up"))
+			case "open-until-seen", "fails-after-seen", "open-until-response-read": // one message waits to be drained; more may follow
+				go func() { _, _ = pw.Write([]byte(c17qOrigBody)) }()
+			case "open-3-messages-until-seen":
+				go func() {
+					for i := 0; i < 3; i++ {
+						if _, err := pw.Write([]byte(c17qOrigBody)); err != nil {
+							return
+						}
+					}
+				}()
+			case "open-silent-until-seen":
+			default:
+				panic("unknown original-body mode " + mode)
+			}
+		}
+		orig, err := http.NewRequestWithContext(context.Background(), http.MethodPost, "http://c17.invalid"+c17qOrigPath+"?orig=1", body)
+		if err != nil {
+			obs.RoundTripErr = "harness: " + err.Error()
+			return
+		}
+		orig.Header.Set("X-Orig", "yes")
+		orig.Header.Set("Content-Type", "application/proto")
+		orig.Header.Set("Connect-Protocol-Version", "1")
+		sender := &rawRequestSender{transport: mem, rawRequest: raw}
+		type result struct {
+			resp  *http.Response
+			err   error
+			panic string
+		}
+		done := make(chan result, 1)
+		go func() {
+			var res result
+			defer func() {
+				if p := recover(); p != nil {
+					res.panic = fmt.Sprint(p)
+				}
+				done <- res
+			}()
+			res.resp, res.err = sender.RoundTrip(orig)
+		}()
+		var res *result
+		look := func() {
+			if obs.Seen == nil {
+				select {
+				case rec := <-mem.seen:
+					obs.Seen = &rec
+				default:
+				}
+			}
+			if res == nil {
+				select {
+				case x := <-done:
+					res = &x
+				default:
+				}
+			}
+		}
+		readResp := func() {
+			if res != nil && res.resp != nil && res.resp.Body != nil {
+				_, _ = io.Copy(io.Discard, res.resp.Body)
+				_ = res.resp.Body.Close()
+				res.resp.Body = nil
+			}
+		}
+		synctest.Wait() // every goroutine has finished or waits for something only this goroutine can do
+		look()
+		switch {
+		case obs.Seen == nil && res == nil:
+			held = "RoundTrip was called with an original body in state '" + mode + "'; when every goroutine had come to rest, RoundTrip had neither returned nor handed any request to the underlying transport"
+		case mode == "open-until-response-read" && res == nil:
+			held = "the transport was handed the raw request and answered, but RoundTrip does not return while the original body is open"
+		}
+		if mode == "open-until-response-read" {
+			readResp()
+		}
+		// now the original request ends
+		if pw != nil {
+			if mode == "fails-after-seen" {
+				_ = pw.CloseWithError(errors.New("c17: the original request was given up"))
+			} else {
+				_ = pw.Close()
+			}
+		}
+		synctest.Wait()
+		look()
+		switch {
+		case res == nil:
+			obs.RoundTripErr = "RoundTrip has not returned although the original body has ended"
+		case res.panic != "":
+			obs.Panic = res.panic
+		case res.err != nil:
+			obs.RoundTripErr = res.err.Error()
+		default:
+			obs.Status = res.resp.StatusCode
+		}
+		readResp()
+	})
+	return obs, held
+}
+
+func c17qAny(m proto.Message) *anypb.Any {
+	a, err := anypb.New(m)
+	if err != nil {
+		panic(err)
+	}
+	return a
+}
+
+func c17qInvokeProcedure(streamType string) string {
+	switch streamType {
+	case "unary":
+		return conformancev1connect.ConformanceServiceUnaryProcedure
+	case "server":
+		return conformancev1connect.ConformanceServiceServerStreamProcedure
+	case "client":
+		return conformancev1connect.ConformanceServiceClientStreamProcedure
+	}
+	return conformancev1connect.ConformanceServiceBidiStreamProcedure
+}
+
+// c17qInvokeOpen: does the request side of this stream type stay open after the first Send?
+func c17qInvokeOpen(streamType string) bool { return streamType != "unary" && streamType != "server" }
+
+func c17qInvokeRequest(srv *c17qServer, inv *c17qInvoke, raw *conformancev1.RawHTTPRequest) (*conformancev1.ClientCompatRequest, error) {
+	u, err := url.Parse(srv.url)
+	if err != nil {
+		return nil, err
+	}
+	port, err := strconv.Atoi(u.Port())
+	if err != nil {
+		return nil, err
+	}
+	service := conformancev1connect.ConformanceServiceName
+	req := &conformancev1.ClientCompatRequest{
+		TestName:       "c17/" + inv.StreamType,
+		HttpVersion:    conformancev1.HTTPVersion_HTTP_VERSION_2,
+		Protocol:       conformancev1.Protocol_PROTOCOL_CONNECT,
+		Codec:          conformancev1.Codec_CODEC_PROTO,
+		Compression:    conformancev1.Compression_COMPRESSION_IDENTITY,
+		Host:           u.Hostname(),
+		Port:           uint32(port),
+		Service:        &service,
+		RequestDelayMs: inv.DelayMs,
+		RawRequest:     raw,
+	}
+	if srv.name == "h1" {
+		req.HttpVersion = conformancev1.HTTPVersion_HTTP_VERSION_1
+	}
+	if srv.name == "h2tls" {
+		req.ServerTlsCert = srv.pem
+	}
+	var method string
+	for i := 0; i < inv.Messages; i++ {
+		data := []byte(fmt.Sprintf("original-message-%d", i))
+		switch inv.StreamType {
+		case "unary":
+			method, req.StreamType = "Unary", conformancev1.StreamType_STREAM_TYPE_UNARY
+			req.RequestMessages = append(req.RequestMessages, c17qAny(&conformancev1.UnaryRequest{RequestData: data}))
+		case "server":
+			method, req.StreamType = "ServerStream", conformancev1.StreamType_STREAM_TYPE_SERVER_STREAM
+			req.RequestMessages = append(req.RequestMessages, c17qAny(&conformancev1.ServerStreamRequest{RequestData: data}))
+		case "client":
+			method, req.StreamType = "ClientStream", conformancev1.StreamType_STREAM_TYPE_CLIENT_STREAM
+			req.RequestMessages = append(req.RequestMessages, c17qAny(&conformancev1.ClientStreamRequest{RequestData: data}))
+		case "half-bidi":
+			method, req.StreamType = "BidiStream", conformancev1.StreamType_STREAM_TYPE_HALF_DUPLEX_BIDI_STREAM
+			req.RequestMessages = append(req.RequestMessages, c17qAny(&conformancev1.BidiStreamRequest{RequestData: data}))
+		case "full-bidi":
+			method, req.StreamType = "BidiStream", conformancev1.StreamType_STREAM_TYPE_FULL_DUPLEX_BIDI_STREAM
+			req.RequestMessages = append(req.RequestMessages, c17qAny(&conformancev1.BidiStreamRequest{RequestData: data, FullDuplex: true}))
+		default:
+			return nil, fmt.Errorf("unknown stream type %q", inv.StreamType)
+		}
+	}
+	req.Method = &method
+	switch inv.Cancel {
+	case "":
+	case "before_close_send":
+		req.Cancel = &conformancev1.ClientCompatRequest_Cancel{CancelTiming: &conformancev1.ClientCompatRequest_Cancel_BeforeCloseSend{BeforeCloseSend: &emptypb.Empty{}}}
+	default:
+		return nil, fmt.Errorf("unknown cancel timing %q", inv.Cancel)
+	}
+	return req, nil
+}
+
+// c17qRunInvoke: one grid-I case.  note = something worth recording that is not C17's business.
+func c17qRunInvoke(srv *c17qServer, raw *conformancev1.RawHTTPRequest, inv *c17qInvoke) (obs c17qObs, held, note string) {
+	for len(srv.seen) > 0 {
+		<-srv.seen
+	}
+	reply := &c17qReply{"application/connect+proto", []byte{2, 0, 0, 0, 2, '{', '}'}} // an empty Connect stream
+	if inv.StreamType == "unary" {
+		reply = &c17qReply{"application/proto", nil} // an empty UnaryResponse
+	}
+	srv.reply.Store(reply)
+	defer srv.reply.Store(nil)
+	req, err := c17qInvokeRequest(srv, inv, raw)
+	if err != nil {
+		obs.RoundTripErr = "harness: " + err.Error()
+		return obs, "", ""
+	}
+	ctx, cancel := context.WithCancel(context.Background())
+	defer cancel() // a hanging invoke is left behind (its goroutine cannot be ended from outside)
+	type result struct {
+		err   error
+		panic string
+	}
+	done := make(chan result, 1)
+	go func() {
+		var res result
+		defer func() {
+			if p := recover(); p != nil {
+				res.panic = fmt.Sprint(p)
+			}
+			done <- res
+		}()
+		_, res.err = invoke(ctx, req, true, nil)
+	}()
+	var res *result
+	hang := time.NewTimer(c17qHangBound)
+	defer hang.Stop()
+	select {
+	case rec := <-srv.seen:
+		obs.Seen = &rec
+	case x := <-done:
+		// invoke is over: whatever it sent has been sent; a short grace period for the handler to report
+		res = &x
+		select {
+		case rec := <-srv.seen:
+			obs.Seen = &rec
+		case <-time.After(2 * time.Second):
+		}
+	case <-hang.C:
+		held = fmt.Sprintf("%s RPC with %d request message(s) (request_delay_ms=%d, cancel=%q) through invoke(...): the raw request did not reach the server within %v, invoke has not returned - nothing but the unfinished original request is outstanding", inv.StreamType, inv.Messages, inv.DelayMs, inv.Cancel, c17qHangBound)
+		return obs, held, ""
+	}
+	if res == nil {
+		// How (and when) the RPC itself ends is not C17's business: in reference mode invoke spends
+		// a further second waiting for its wire trace.  It is left to finish by itself.
+		select {
+		case x := <-done:
+			res = &x
+		default:
+		}
+	}
+	if res != nil {
+		if res.panic != "" {
+			obs.Panic = res.panic
+		} else if res.err != nil {
+			note = "invoke returned the error " + res.err.Error()
+		}
+	}
+	if obs.Seen == nil && obs.Panic == "" {
+		obs.RoundTripErr = "invoke has returned"
+		if res != nil && res.err != nil {
+			obs.RoundTripErr += " the error " + res.err.Error()
+		}
+		if c17qInvokeOpen(inv.StreamType) {
+			held = fmt.Sprintf("%s RPC with %d request message(s) (request_delay_ms=%d, cancel=%q) through invoke(...): invoke is over and no request has reached the server, although the first Send was made %d ms or more before the RPC was given up", inv.StreamType, inv.Messages, inv.DelayMs, inv.Cancel, int(inv.DelayMs)*(inv.Messages-1))
+		}
+	}
+	return obs, held, note
+}
+
+// ---------------------------------------------------------------------------
 // Enumeration
 
 func c17qEncoded(name string, mc *conformancev1.MessageContents, b64 bool) *conformancev1.RawHTTPRequest_EncodedQueryParam {
@@ -648,7 +1037,10 @@ func c17qBigs(thorough bool) []*c17qBig {
 	return out
 }
 
-func c17qEnumerate(thorough bool, visit0 func(grid, proto string, early bool, big *c17qBig, raw *conformancev1.RawHTTPRequest) bool) {
+func c17qEnumerate(thorough bool, visitX func(grid, proto string, early bool, big *c17qBig, ext *c17qExt, raw *conformancev1.RawHTTPRequest) bool) {
+	visit0 := func(grid, proto string, early bool, big *c17qBig, raw *conformancev1.RawHTTPRequest) bool {
+		return visitX(grid, proto, early, big, nil, raw)
+	}
 	visit := func(grid, proto string, raw *conformancev1.RawHTTPRequest) bool {
 		return visit0(grid, proto, false, nil, raw)
 	}
@@ -739,6 +1131,56 @@ func c17qEnumerate(thorough bool, visit0 func(grid, proto string, early bool, bi
 			}
 		}
 	}
+	// grid O: the original body's lifecycle x raw definitions (synctest bubble, in-memory transport)
+	oBodies, oVerbs := c17lib.Bodies(0), []string{"POST", "PUT"}
+	if thorough {
+		oBodies, oVerbs = bodies, c17qVerbs
+	}
+	for _, mode := range c17qOrigModes {
+		for _, verb := range oVerbs {
+			for _, hs := range [][]*conformancev1.Header{nil, hl[2]} {
+				for _, b := range oBodies {
+					raw := c17qMake(verb, c17qURIs[0], c17qRawQueryLists()[1], nil, hs, b)
+					if !visitX("O", "mem", false, nil, &c17qExt{Orig: mode}, raw) {
+						return
+					}
+				}
+			}
+		}
+	}
+	// grid I: invoke(...) in reference mode x stream type x request messages x delay x cancellation
+	iBodies := c17lib.Bodies(0)
+	if !thorough {
+		iBodies = []c17lib.Body{iBodies[1], iBodies[3], iBodies[len(iBodies)-1]} // one message, two streams
+	}
+	for _, st := range []string{"unary", "server", "client", "half-bidi", "full-bidi"} {
+		invs := []*c17qInvoke{{StreamType: st, Messages: 1}}
+		if c17qInvokeOpen(st) {
+			invs = append(invs,
+				&c17qInvoke{StreamType: st, Messages: 3},
+				&c17qInvoke{StreamType: st, Messages: 3, DelayMs: 20},
+				// the RPC is given up instead of half-closed, 2 x 500 ms after the first Send
+				&c17qInvoke{StreamType: st, Messages: 3, DelayMs: 500, Cancel: "before_close_send"},
+			)
+		}
+		for _, inv := range invs {
+			for bi, b := range iBodies {
+				if inv.Cancel != "" && bi > 0 && !thorough {
+					continue
+				}
+				hs := []*conformancev1.Header{c17lib.H("Content-Type", "application/x-raw"), c17lib.H("X-Raw-A", "a1", "a2")}
+				raw := c17qMake("POST", c17qInvokeProcedure(st)+"?raw=1", c17qRawQueryLists()[1], nil, hs, b)
+				for _, p := range c17qProtos {
+					if st == "full-bidi" && p == "h1" {
+						continue // full duplex needs HTTP/2
+					}
+					if !visitX("I", p, false, nil, &c17qExt{Invoke: inv}, raw) {
+						return
+					}
+				}
+			}
+		}
+	}
 	// grid B (thorough): full body alphabet
 	if thorough {
 		for _, b := range c17lib.Bodies(2) {
@@ -769,7 +1211,7 @@ func c17qShort(raw *conformancev1.RawHTTPRequest) string {
 func TestVerifC17RawRequest(t *testing.T) {
 	r := rep.New("c17-rawreq")
 	defer r.Write()
-	r.Rule = "case = (protocol h1|h2tls|h2c) x RawHTTPRequest; grid U = verb{POST,GET,PUT} x 10 URIs (thorough 15: plain, root, escaped space, with own query, paths with %2F / %3F / %23 / %25 without and with an own query string; the escaped path the server receives - request target and URL.EscapedPath() - must be the one specified) x 4 raw query lists x encoded query lists (text/binary/binary_message, compressed, +-base64, repeated name, unset value; thorough: 7 payloads x 7 compressions x +-base64); grid H = verb x header lists (0-3 headers, 1-2 values, a name in two entries - same spelling or differing in case - whose values must all arrive in list order, Content-Type, correct Content-Length) x medium body set; grid T (timing axis) = the recording server answers EARLY (flushes its response headers, HTTP/1.1 in full-duplex mode, waits on a channel the test closes when RoundTrip has returned, only then reads the request body) x medium body set x header lists; grid G = large generated identity bodies (64 KiB, 1 MiB, 4 MiB, 16 MiB - beyond the HTTP/2 flow-control window and the loopback socket buffers - as one message, one stream item, several stream items) x server answers late | early, on a fresh connection: the server must receive exactly the prescribed bytes (length + SHA-256 computed independently; bodies up to 2 MiB also through the independent decoder); grid B (thorough) = full body alphabet x 2 verbs x 2 header lists; distinct (proto, early, definition) = non-trivial; oracle = what a recording net/http server received vs. the definition (independent body decoder), nothing of the original request"
+	r.Rule = "case = (protocol h1|h2tls|h2c) x RawHTTPRequest; grid U = verb{POST,GET,PUT} x 10 URIs (thorough 15: plain, root, escaped space, with own query, paths with %2F / %3F / %23 / %25 without and with an own query string; the escaped path the server receives - request target and URL.EscapedPath() - must be the one specified) x 4 raw query lists x encoded query lists (text/binary/binary_message, compressed, +-base64, repeated name, unset value; thorough: 7 payloads x 7 compressions x +-base64); grid H = verb x header lists (0-3 headers, 1-2 values, a name in two entries - same spelling or differing in case - whose values must all arrive in list order, Content-Type, correct Content-Length) x medium body set; grid T (timing axis) = the recording server answers EARLY (flushes its response headers, HTTP/1.1 in full-duplex mode, waits on a channel the test closes when RoundTrip has returned, only then reads the request body) x medium body set x header lists; grid G = large generated identity bodies (64 KiB, 1 MiB, 4 MiB, 16 MiB - beyond the HTTP/2 flow-control window and the loopback socket buffers - as one message, one stream item, several stream items) x server answers late | early, on a fresh connection: the server must receive exactly the prescribed bytes (length + SHA-256 computed independently; bodies up to 2 MiB also through the independent decoder); grid B (thorough) = full body alphabet x 2 verbs x 2 header lists; distinct (proto, early, definition) = non-trivial; oracle = what a recording net/http server received vs. the definition (independent body decoder), nothing of the original request; grid O (what becomes of the ORIGINAL request) = rawRequestSender.RoundTrip in a testing/synctest bubble with an in-memory recording transport x original body {finished buffer, pipe that ends when drained, pipe closed / failed beforehand; pipe left OPEN with one / three / no message(s) waiting and closed - or failed - only after the transport was handed the raw request, or only after the response was read} x 2 verbs x 2 header lists x 7 bodies: when every goroutine has come to rest (synctest.Wait) the transport must have the raw request; grid I = invoke(...) in reference mode against the recording servers x stream type {unary, server, client, half-duplex bidi, full-duplex bidi (HTTP/2)} x {1, 3 request messages, request_delay_ms, cancel before_close_send} x 3 bodies x 3 protocols: the server must receive the raw request as prescribed while the original request is unfinished (hang detector 10 s; controls = unary / server stream)"
 
 	servers := c17qStart()
 	defer func() {
@@ -781,20 +1223,51 @@ func TestVerifC17RawRequest(t *testing.T) {
 		}
 	}()
 
-	evalOne := func(protoName string, early bool, big *c17qBig, raw *conformancev1.RawHTTPRequest, verbose bool) []c17qVerdict {
+	evalOne := func(protoName string, early bool, big *c17qBig, ext *c17qExt, raw *conformancev1.RawHTTPRequest, verbose bool) []c17qVerdict {
 		srv := servers[protoName]
 		if big != nil {
 			raw = proto.Clone(raw).(*conformancev1.RawHTTPRequest)
 			c17qBigBody(raw, big)
 		}
-		obs := c17qRun(srv, raw, early)
-		verdicts := c17qJudge(raw, early, big, obs)
+		var obs c17qObs
+		runAndJudge := func() []c17qVerdict {
+			held := ""
+			switch {
+			case ext != nil && ext.Orig != "":
+				obs, held = c17qRunOrig(t, raw, ext.Orig)
+			case ext != nil && ext.Invoke != nil:
+				if srv == nil {
+					return []c17qVerdict{{"raw-request:harness-no-such-server", "no recording server " + protoName}}
+				}
+				var note string
+				obs, held, note = c17qRunInvoke(srv, raw, ext.Invoke)
+				if note != "" {
+					r.Count("grid-I:"+strings.Join(strings.Fields(note)[:3], " ")+" ...", 1)
+					if verbose {
+						fmt.Println("note:", note)
+					}
+				}
+			default:
+				obs = c17qRun(srv, raw, early)
+			}
+			var out []c17qVerdict
+			if held != "" {
+				out = append(out, c17qVerdict{c17qHeldKey, held})
+				if obs.Seen == nil && obs.Panic == "" {
+					return out // nothing to compare
+				}
+			}
+			return append(out, c17qJudge(raw, early, big, obs)...)
+		}
+		verdicts := runAndJudge()
 		if len(verdicts) > 0 {
 			// alarm discipline: run a failing case once more on fresh connections
-			if c, ok := srv.transport.(interface{ CloseIdleConnections() }); ok {
-				c.CloseIdleConnections()
+			if srv != nil {
+				if c, ok := srv.transport.(interface{ CloseIdleConnections() }); ok {
+					c.CloseIdleConnections()
+				}
 			}
-			again := c17qJudge(raw, early, big, c17qRun(srv, raw, early))
+			again := runAndJudge()
 			keys := map[string]bool{}
 			for _, v := range again {
 				keys[v.key] = true
@@ -818,6 +1291,12 @@ func TestVerifC17RawRequest(t *testing.T) {
 			bodyKind = "stream"
 		}
 		cls := protoName + "/nothing-arrived"
+		if ext != nil && ext.Orig != "" {
+			cls = "original-body:" + ext.Orig + "/" + cls
+		}
+		if ext != nil && ext.Invoke != nil {
+			cls = "invoke:" + ext.Invoke.StreamType + "/" + cls
+		}
 		if obs.Panic != "" {
 			cls = protoName + "/panic"
 		} else if obs.Seen != nil {
@@ -837,6 +1316,12 @@ func TestVerifC17RawRequest(t *testing.T) {
 				n = "bytes"
 			}
 			cls = fmt.Sprintf("%s/%s/%s/%s-%s/hdrs%d", obs.Seen.Proto, obs.Seen.Method, q, bodyKind, n, len(raw.GetHeaders()))
+			if ext != nil && ext.Orig != "" {
+				cls = fmt.Sprintf("original-body:%s/%s/%s", ext.Orig, obs.Seen.Method, bodyKind)
+			}
+			if ext != nil && ext.Invoke != nil {
+				cls = fmt.Sprintf("invoke:%s/msgs%d/delay%d/cancel=%s/%s/%s", ext.Invoke.StreamType, ext.Invoke.Messages, ext.Invoke.DelayMs, ext.Invoke.Cancel, obs.Seen.Proto, bodyKind)
+			}
 			if obs.Seen.Early {
 				cls += "/server-answered-before-reading"
 			}
@@ -850,6 +1335,8 @@ func TestVerifC17RawRequest(t *testing.T) {
 					seen.Body = seen.Body[:256]
 				}
 			}
+			extJSON, _ := json.Marshal(ext)
+			fmt.Printf("replay: original-request=%s\n", extJSON)
 			fmt.Printf("replay: proto=%s early=%v big=%+v raw=%s\nobserved: panic=%q err=%q status=%d\nseen(first 256 body bytes)=%+v\nverdicts=%v\n", protoName, early, big, c17qShort(raw), obs.Panic, obs.RoundTripErr, obs.Status, seen, verdicts)
 		}
 		return verdicts
@@ -870,7 +1357,7 @@ func TestVerifC17RawRequest(t *testing.T) {
 		r.NonTrivial("")
 		r.NonTrivial("")
 		r.Sample(rj.Replay)
-		for _, v := range evalOne(rj.Replay.Proto, rj.Replay.Early, rj.Replay.Big, raw, true) {
+		for _, v := range evalOne(rj.Replay.Proto, rj.Replay.Early, rj.Replay.Big, rj.Replay.Ext, raw, true) {
 			r.Violate(v.key, v.detail, rj.Replay)
 		}
 		return
@@ -878,23 +1365,44 @@ func TestVerifC17RawRequest(t *testing.T) {
 
 	deadline := rep.Deadline()
 	var k int64
-	c17qEnumerate(rep.Thorough(), func(grid, protoName string, early bool, big *c17qBig, raw *conformancev1.RawHTTPRequest) bool {
+	hung := false // grid I: a hang was confirmed in this shard; the open-request-side family is not probed further
+	c17qEnumerate(rep.Thorough(), func(grid, protoName string, early bool, big *c17qBig, ext *c17qExt, raw *conformancev1.RawHTTPRequest) bool {
 		k++
 		if !r.Mine(k) {
+			return true
+		}
+		if hung && ext != nil && ext.Invoke != nil && c17qInvokeOpen(ext.Invoke.StreamType) {
+			r.NotExhaustive("grid I: after a confirmed hang (" + c17qHeldKey + ") the remaining client / bidi stream cases of this shard were not run: each would cost 2 x " + c17qHangBound.String())
+			r.Count("grid-I:skipped-after-confirmed-hang", 1)
 			return true
 		}
 		if !deadline.IsZero() && time.Now().After(deadline) {
 			r.NotExhaustive("budget reached in grid " + grid + " before the enumeration was complete")
 			return false
 		}
-		verdicts := evalOne(protoName, early, big, raw, false)
+		began := time.Now()
+		verdicts := evalOne(protoName, early, big, ext, raw, false)
 		r.Eval(1)
 		r.Count("grid:"+grid, 1)
-		c := c17qCase{Proto: protoName, Early: early, Big: big, Raw: c17lib.JSON(raw)}
+		r.Count("wall-ms:grid:"+grid, time.Since(began).Milliseconds()) // cost accounting only
+		c := c17qCase{Proto: protoName, Early: early, Big: big, Ext: ext, Raw: c17lib.JSON(raw)}
 		bigKey, _ := json.Marshal(big)
-		r.NonTrivial(protoName + "|" + strconv.FormatBool(early) + "|" + string(bigKey) + "|" + string(c.Raw))
-		if k%499 == 1 || (grid == "G" && early && big.Sizes[0] == 4<<20) {
+		extKey, _ := json.Marshal(ext)
+		r.NonTrivial(protoName + "|" + strconv.FormatBool(early) + "|" + string(bigKey) + "|" + string(extKey) + "|" + string(c.Raw))
+		if k%499 == 1 || (grid == "G" && early && big.Sizes[0] == 4<<20) || (grid == "I" && ext.Invoke.StreamType == "full-bidi" && ext.Invoke.Messages == 3 && ext.Invoke.DelayMs == 0 && protoName == "h2c") {
 			r.Sample(c)
+		}
+		if ext != nil && len(verdicts) > 0 {
+			what := "original-body=" + ext.Orig
+			if ext.Invoke != nil {
+				what = fmt.Sprintf("invoke:%s:msgs=%d:delay=%d:cancel=%s", ext.Invoke.StreamType, ext.Invoke.Messages, ext.Invoke.DelayMs, ext.Invoke.Cancel)
+				for _, v := range verdicts {
+					if v.key == c17qHeldKey && strings.Contains(v.detail, "did not reach the server within") {
+						hung = true
+					}
+				}
+			}
+			r.Count("cases-with-verdicts:grid-"+grid+":"+what, 1)
 		}
 		if len(verdicts) > 0 && (early || big != nil) {
 			name := fmt.Sprintf("cases-with-verdicts:grid-%s:%s:early=%v", grid, protoName, early)
@@ -908,7 +1416,7 @@ func TestVerifC17RawRequest(t *testing.T) {
 			r.Count(name, 1)
 		}
 		for _, v := range verdicts {
-			r.Violate(v.key, fmt.Sprintf("proto=%s server-answers-early=%v big-body=%s raw=%s: %s", protoName, early, bigKey, c17lib.Short(raw), v.detail), c)
+			r.Violate(v.key, fmt.Sprintf("proto=%s server-answers-early=%v big-body=%s original-request=%s raw=%s: %s", protoName, early, bigKey, extKey, c17lib.Short(raw), v.detail), c)
 		}
 		return true
 	})
